@@ -20,8 +20,11 @@ import (
 	"flag"
 	"fmt"
 	"os"
+	"os/exec"
 	"path/filepath"
 	"sort"
+	"strings"
+	"sync"
 	"time"
 )
 
@@ -203,9 +206,86 @@ func main() {
 	if *corpus != "" {
 		runCorpus(prop, *corpus, o)
 	}
+	if *tier == "thorough" && sharded[prop] > 0 {
+		runSharded(prop, *seed, sharded[prop], o)
+		o.close(*dir)
+		return
+	}
 	r := &rng{s: *seed*0x100000001b3 + 0xcbf29ce484222325}
 	f(r, *tier, o)
 	o.close(*dir)
+}
+
+// Properties whose runs start a server per case: every server leaves its event-loop goroutine behind, and the quiescence test
+// inspects every goroutine, so one long process slows down quadratically. The thorough tier of these runs the "shard" tier in
+// this many child processes (distinct seeds, eight at a time) and concatenates their output.
+var sharded = map[string]int{"C08": 32, "C09": 24}
+
+func runSharded(prop string, seed uint64, n int, o *out) {
+	self, _ := os.Executable()
+	type res struct {
+		dir string
+		err error
+	}
+	results := make([]res, n)
+	sem := make(chan bool, 8)
+	var wg sync.WaitGroup
+	for i := 0; i < n; i++ {
+		wg.Add(1)
+		sem <- true
+		go func(i int) {
+			defer wg.Done()
+			d, _ := os.MkdirTemp("", "vh-shard")
+			cmd := exec.Command(self, prop, "-seed", fmt.Sprint(seed*1000+uint64(i)+1), "-tier", "shard", "-dir", d)
+			results[i] = res{d, cmd.Run()}
+			<-sem
+		}(i)
+	}
+	wg.Wait()
+	for i, rs := range results {
+		cases := readLines(filepath.Join(rs.dir, "cases.txt"))
+		impl := readLines(filepath.Join(rs.dir, "impl.txt"))
+		base := o.n
+		for k := range cases {
+			il := ""
+			if k < len(impl) {
+				il = impl[k]
+			}
+			o.emit(cases[k], il, true)
+		}
+		for _, l := range readLines(filepath.Join(rs.dir, "oracle.txt")) {
+			var idx int
+			var what string
+			if f := strings.SplitN(l, " ", 3); len(f) == 3 && f[0] == "VIOL" {
+				fmt.Sscan(f[1], &idx)
+				what = f[2]
+				o.violation(base+idx, what)
+			}
+		}
+		if b, err := os.ReadFile(filepath.Join(rs.dir, "stats.json")); err == nil {
+			var st struct {
+				Distribution map[string]int `json:"distribution"`
+			}
+			if json.Unmarshal(b, &st) == nil {
+				for k, v := range st.Distribution {
+					o.stats[k] += v
+				}
+			}
+		}
+		if rs.err != nil || len(cases) == 0 {
+			idx := o.emit(fmt.Sprintf("micro 0 0 # shard %d", i), "crashed", false)
+			o.violation(idx, fmt.Sprintf("shard %d of the %s run ended abnormally: %v", i, prop, rs.err))
+		}
+		os.RemoveAll(rs.dir)
+	}
+}
+
+func readLines(p string) []string {
+	b, err := os.ReadFile(p)
+	if err != nil || len(b) == 0 {
+		return nil
+	}
+	return strings.Split(strings.TrimRight(string(b), "\n"), "\n")
 }
 
 // runCorpus replays the committed corpus (minimised past disagreements and defect witnesses)
